@@ -79,7 +79,7 @@ fn universe_of(prog: &Value) -> Vec<String> {
 fn run_program(prog: &Value, out: &Emit) {
     let rt = &rt();
     let dir = tempfile::tempdir_in(scratch()).expect("tempdir");
-    let cap = prog["cap"].as_u64().unwrap() as u32;
+    let mut cap = prog["cap"].as_u64().unwrap() as u32;
     let universe = universe_of(prog);
     let mut lru = LruManager::new(cap, dir.path().to_path_buf());
     out.ev(json!({"op": "new", "cap": cap}));
@@ -118,6 +118,10 @@ fn run_program(prog: &Value, out: &Emit) {
                     }
                 }
                 "reopen" => {
+                    // a new tracker on the same directory, possibly configured with another capacity
+                    if let Some(c) = op.get("cap").and_then(Value::as_u64) {
+                        cap = c as u32;
+                    }
                     lru = LruManager::new(cap, dir.path().to_path_buf());
                     json!(true)
                 }
@@ -163,7 +167,8 @@ fn random_program(rng: &mut Rng, len: usize, maxcap: u64, nkeys: u64) -> Value {
             84..=89 => json!({"op": "checkpoint"}),
             90..=92 => json!({"op": "load", "g": 1 + rng.below(4)}),
             93..=95 => json!({"op": "run_cycle", "limit": rng.below(cap + 1)}),
-            96..=97 => json!({"op": "reopen"}),
+            96 => json!({"op": "reopen"}),
+            97 => json!({"op": "reopen", "cap": 1 + rng.below(maxcap)}),
             _ => json!({"op": "reset"}),
         };
         ops.push(op);
